@@ -90,6 +90,10 @@ def stat_spec(draw, max_nodes=9, min_samples=1, **kw):
     kw.setdefault("populations", False)
     kw.setdefault("extra_flags", False)
     kw.setdefault("min_nodes", max(1, min_samples))
+    # allelic states are arbitrary strings: a quarter of the cases use states that are empty or
+    # prefixes of each other (indel-style alleles), which exact string comparison must keep apart
+    if "alphabet" not in kw:
+        kw["alphabet"] = draw(st.sampled_from([("A", "C", "G", "T")] * 3 + [("", "A", "AT", "ATT", "G")]))
     base = gen.ts_spec(max_nodes=max_nodes, min_samples=min_samples, time_styles=TIME_STYLES, **kw)
     if draw(st.integers(0, 7)) > 0:  # a tree sequence without any edge is kept as a rare corner
         base = base.filter(lambda sp: bool(sp["edges"]))
